@@ -7,12 +7,7 @@ CONSTANTS
   Admissible <- MCAdmissible
   MaxVariants = 2
   MaxFields = 3
-  RichFields = 2
-  EnumRichFields = 2
-  RankSet <- RanksQuick
-  EnumRankSet = {2}
-  SimpleStyles = {"unit", "tuple"}
-  MaxLawValues = 8
+  MaxDeviations = 3
   Vals = {0, 1}
-INVARIANTS ImplMeetsDecl ImplMeetsProp NoneOnlyFromNaN IgnoredIrrelevant Laws
+INVARIANTS ResolveMeetsDecl
 CHECK_DEADLOCK FALSE
